@@ -683,6 +683,7 @@ CORNER_SPACES = [
     {"kind": "md", "nvec": [2, 3, 4, 2, 5, 3, 2, 4, 6]},
     {"kind": "md", "nvec": [4] * 10},
     {"kind": "mb", "n": 9},
+    {"kind": "mb", "n": 160},
     {"kind": "disc", "n": 17},
     {"kind": "box", "dim": 9, "low": -2.0, "high": 3.0},
     {"kind": "mb", "n": 1},
@@ -738,7 +739,9 @@ def _case(entry, space, rng, **kw):
         # rewritten in place between them (int8 / float / bool / int64 element types)
         "mask_reuse": bool(rng.random() < 0.4),
         "mask_dtype": ["int8", "bool", "float32", "int64"][int(rng.integers(4))],
-        "wscale": float([0.3, 1.0, 3.0][int(rng.integers(3))]),
+        # (a confident policy: logits of the order +-30, stored actions can have log-probabilities far below float32's
+        # smallest normal exponent when computed as a product)
+        "wscale": float([0.3, 1.0, 3.0][int(rng.integers(3))]) if (space["kind"] == "box" or rng.random() < 0.88) else 30.0,
         "B": int(rng.integers(1, 9)),
         "T": int(rng.integers(2, 5)),
         "E": int(rng.integers(1, 4)),
